@@ -312,8 +312,14 @@ type transformationKey struct {
 	// transaction phase and we would never have different string pointers with the same
 	// content, or more problematically same pointer for different content, as the strings
 	// will be alive throughout the phase.
-	argKey            *byte
-	argIndex          int
+	argKey   *byte
+	argIndex int
+	// argValue and argValueLen identify the value the cached result was computed from.
+	// The position alone does not: the values of a key are handed out at different positions
+	// when the map iteration order differs between two rules, and variables such as
+	// MATCHED_VAR change their content during a phase.
+	argValue          *byte
+	argValueLen       int
 	argVariable       variables.RuleVariable
 	transformationsID int
 }
